@@ -1,17 +1,21 @@
-\* third core (centre assembly Sym 3 with two blocks + one full assembly): every accounting clause one edit deep, edits at all twelve nodes, height changes of all blocks; emitted for replay
+\* thorough: every accounting clause as its own invariant, one edit deep with rich parameters, third core
 CONSTANTS NLeaf = 6  NBlk = 3  NAsm = 2  MaxLevel = 2  LMax = 20000  VMax = 100
 CONSTANTS Parent <- TCoreParent  Area <- TCoreArea  Height <- TCoreHeight  Sym <- TCoreSym  W <- Wt  N0 <- TCoreN0  H0 <- TCoreH0
-CONSTANTS Targets <- TCoreTargetsAll  Vals <- ValsQ  Facs <- FacsQ  Masses <- MassesQ  Maps <- MapsQ  FracMaps <- FracMapsQ  AddMaps <- AddMapsQ  SetMaps <- SetMapsQ
+CONSTANTS Targets <- TCoreTargetsAll  Vals <- ValsT  Facs <- FacsT  Masses <- MassesT  Maps <- MapsT  FracMaps <- FracMapsT  AddMaps <- AddMapsT  SetMaps <- SetMapsT
 CONSTANTS HDom <- HDom123  HTargets <- TCoreHAll  HVals <- HDom123
 CONSTANTS LeafVolCut <- LeafVolCutEnv  ScaleRaises <- ScaleRaisesEnv
 INIT InitB
 NEXT NextB
 CONSTRAINT Bound
 VIEW View
-ACTION_CONSTRAINT Emit
-INVARIANT EmitState
 INVARIANT TypeOK
-INVARIANT Accounting
+INVARIANT VolumeAdditive
+INVARIANT MassIsDensityTimesVolume
+INVARIANT MassAdditive
+INVARIANT AtomsAgree
+INVARIANT MassesAgreeWithMass
+INVARIANT MassFracsSumToOne
+INVARIANT ConversionsInverse
 PROPERTY ReadBack
 PROPERTY Locality
 POSTCONDITION CountReport
